@@ -87,6 +87,8 @@ def run_chunk(modname, verif_seed, tier, indices, max_viol=6):
                 res = mod.run(scn)
                 agg["evaluations"] += 1
                 st = res.get("stats", {})
+                if st.get("breaches"):
+                    raise RuntimeError(f"seam breach in run: {st['breaches']}")
                 agg["faults"].update(st.get("faults", {}))
                 agg["probes"].update(st.get("probes", {}))
                 agg["sim_time"] += st.get("sim_time", 0.0)
